@@ -270,7 +270,7 @@ fn fixed_cases() -> Vec<Case> {
 
 pub fn run_into(ctx: &Ctx, stats: &mut Stats) {
     let thorough = ctx.tier == Tier::Thorough;
-    let per_shard = ctx.tier.pick(1_200u32, 25_000);
+    let per_shard = ctx.tier.pick(2_500u32, 40_000);
     let fixed = fixed_cases();
     let st = par_shards(WORKERS, |shard| {
         let mut st = Stats::default();
